@@ -152,6 +152,15 @@ CHECKS = {
                      "tree built from the JSON by an independent parser; each input is compiled in two processes and compared.",
                 note="the input space is explored, not enumerated; four classes of input disagree on the unchanged tree (known findings)",
                 technique="mutation driver + TLA+ outcome rule and reference resolution (InkPathAudit/InkPath) over compiled output"),
+    "C20": dict(level=MC, ref="5/C20",
+                text="spec InkCli defines the sequence of output objects of a play session as a function of the library's transcript "
+                     "(tree of turns) and the input script; the real binary is run with scripted stdin on programs with hostile "
+                     "characters; TLC (InkCliTrace) compares the objects scanned from stdout by an independent strict JSON scanner "
+                     "with the specified sequence (JSON mode, with and without -k) and emits the expected sequence for plain mode, "
+                     "which is rendered and compared with stdout byte for byte. Compile mode: -o output equals the library's, "
+                     "failing compiles exit non-zero with the library's message, file name and line.",
+                note="the tool's story seed cannot be set: programs use no randomness; stderr of plain mode is not compared",
+                technique="TLA+ protocol specification (InkCli) + trace validation of the real binary's sessions (InkCliTrace)"),
 }
 
 NOT_YET = {}
